@@ -131,13 +131,18 @@ CHECKS = {
                 "balancing, non-empty repair, flatten + natural sort) and of the natsort key and name rendering. Machine-checked for every input: "
                 "the grouped dictionary holds exactly the indices 0..n-1 plus 2/1/0 deletion placeholders (only with a deletion allele); dictionary "
                 "operations, the stable sort, flattening, the final ordering and the non-empty repair are permutations (no copy lost, duplicated "
-                "or invented); after the repair both sides are non-empty when two or more items were placed. Tie: real estimate_diplotype and "
+                "or invented); every phase of the heuristic - the tandem loop, the even split, duplicate and rest balancing - preserves the multiset "
+                "of copies still to place or placed, the last phase leaves nothing in the dictionary (uniqueness of its keys is an invariant), "
+                "hence END TO END (diplotype_partition): the reported diplotype, flattened, is a permutation of the called copies 0..n-1 plus "
+                "exactly the placeholders, for every multiset, order and tandem list whose pairs name two different allele numbers; after the "
+                "repair both sides are non-empty when two or more items were placed. Tie: real estimate_diplotype and "
                 "get_major_diplotype vs the model on multisets of 0-6 copies in all production orders (toy, CYP2D6, CYP2A6, CYP2C19, GSTM1, "
                 "generated genes), get_major_name vs majorName, natsort's key vs natKey on every name; property oracle on every real output.",
         "design_ref": "DESIGN.md section 4 (C11)",
-        "note": "PARTIAL at theorem level: the end-to-end statement 'output is a permutation of all copies' is proved per phase for grouping, "
-                "sorting, flattening and repair; the three balancing folds and the tandem loop are covered by the correspondence run and the oracle "
-                "(every copy exactly once) rather than by a composed theorem yet. Order clauses rest on natsort (key compared on every name).",
+        "note": "The partition clause is proved end to end under the hypothesis that a catalogued tandem pairs two different allele numbers (for "
+                "a pair (x, x) the code deletes two list entries per emitted pair or raises IndexError; no shipped database has one). Tandem "
+                "adjacency and order-independence for n <= 2 are decided by the correspondence run and the oracle. Order clauses rest on "
+                "natsort (key compared on every name).",
         "technique": "Lean 4 proof (list permutations by induction) + exhaustive-order differential correspondence with estimate_diplotype",
     },
     "C10": {
